@@ -11,5 +11,9 @@ for d in sorted(glob.glob('/verif/seeded/*/')):
     rows.append(f"| {m['name']} | {m['breaks_property']} | `{first}` | {kind} |")
 s = open('/verif/DESIGN.md').read()
 s = re.sub(r'<!-- seeds:begin -->.*?<!-- seeds:end -->', '<!-- seeds:begin -->\n' + '\n'.join(rows) + '\n<!-- seeds:end -->', s, flags=re.S)
+n = len(rows) - 2
+missed = sum(1 for r in rows if r.endswith('| MISSED |'))
+summ = f"{n} changes, all confirmed; {n - missed} detected by the check of the property they break, {missed} missed:"
+s = re.sub(r'<!-- seeds:summary -->.*?<!-- seeds:summary-end -->', '<!-- seeds:summary -->' + summ + '<!-- seeds:summary-end -->', s, flags=re.S)
 open('/verif/DESIGN.md', 'w').write(s)
 print(len(rows) - 2, 'rows')
